@@ -22,6 +22,24 @@ namespace Juno.C20
 
 abbrev Felt := Nat
 
+/-! ## `uint64` block numbers
+
+Block numbers are `Nat`. Two operations of the code can actually wrap on a reachable state and are
+transcribed with their `uint64` meaning: `tip()+1` in `computeUpdate` (at `tip = 2^64-1` it is 0,
+so every in-chain update is rejected as a gap) and `oldestPreConf()-1` in `baseState` (for a chain
+bootstrapped at block 0 the base state asked for is `2^64-1`). The subtractions
+`tip - uint64(length-1)`, `tip - blockNumber`, `oldestPreConf - currentOldest` are plain `Nat`
+subtractions: `stored_chain_wellformed` / the `contains` guards in front of them show that they
+never truncate on a reachable chain. -/
+
+def U64 : Nat := 18446744073709551616
+
+/-- `n + 1` on `uint64` -/
+def succ64 (n : Nat) : Nat := if n + 1 = U64 then 0 else n + 1
+
+/-- `n - 1` on `uint64` -/
+def pred64 (n : Nat) : Nat := if n = 0 then U64 - 1 else n - 1
+
 /-! ## Go maps as shadowing association lists -/
 
 abbrev AMap (α β : Type) := List (α × β)
@@ -63,7 +81,7 @@ structure Diff where
   declaredV1 : AMap Felt Felt := []            -- DeclaredV1Classes  class hash ↦ compiled class hash
   replaced   : AMap Felt Felt := []            -- ReplacedClasses    addr ↦ class hash
   migrated   : AMap Felt Felt := []            -- MigratedClasses    class hash ↦ casm hash v2
-  deriving Inhabited
+  deriving Inhabited, DecidableEq
 
 /-- `core.EmptyStateDiff()` -/
 def Diff.empty : Diff := {}
@@ -330,8 +348,8 @@ def computeUpdate (s : Store) (u : Update) (blockNumber baseTxCount oldestPreCon
       else if blockNumber < currentOldest then .err .belowOldest
       else
         let tip := cur.tip
-        if blockNumber > tip + 1 then .err .gap
-        else if blockNumber == tip + 1 then
+        if blockNumber > succ64 tip then .err .gap
+        else if blockNumber == succ64 tip then
           match u with
           | .block ident verOk txs => extend cur ident verOk txs blockNumber newClasses
           | _ => .err .appendVariant
@@ -448,13 +466,21 @@ def mergeThrough : List PreConf → Nat → Diff → AMap Felt Nat → Diff × A
     let c' := mergeClassesInto c e.classes
     if e.number == b then (d', c') else mergeThrough rest b d' c'
 
-/-- `PreConfirmedStateAt(blockNumber, bcReader)`; `baseAt n` is
-`bcReader.StateAtBlockNumber(n)`. `none` = `ErrPreConfirmedNotFound`. -/
-def stateAt (r : Reader) (b : Nat) (baseAt : Nat → Base) : Option PState :=
-  if !r.contains b then none
+inductive StateErr | notFound | noBase | invariantBroken | indexOutOfBounds
+  deriving DecidableEq, Repr
+
+/-- `PreConfirmedStateAt(blockNumber, bcReader)`. `baseAt n` is `bcReader.StateAtBlockNumber(n)`
+AT THE TIME OF THE CALL (`none`: the call fails — head reverted below the view, state pruned, or
+`n = 2^64-1` for a chain bootstrapped at block 0); a held view re-resolves its base on every call.
+`notFound` = `ErrPreConfirmedNotFound`, `noBase` = the error of `StateAtBlockNumber`. -/
+def stateAt (r : Reader) (b : Nat) (baseAt : Nat → Option Base) : Except StateErr PState :=
+  if !r.contains b then .error .notFound
   else
-    let (d, c) := mergeThrough r.oldestFirst b Diff.empty []
-    some { diff := d, classes := c, head := baseAt (r.oldest - 1), blockNumber := b }
+    match baseAt (pred64 r.oldest) with
+    | none => .error .noBase
+    | some base =>
+      let (d, c) := mergeThrough r.oldestFirst b Diff.empty []
+      .ok { diff := d, classes := c, head := base, blockNumber := b }
 
 /-- the first loop of `PreConfirmedStateBeforeIndexAt`: merge the entries strictly older than
 the target, return the target -/
@@ -464,11 +490,8 @@ def mergeBefore : List PreConf → Nat → Diff → AMap Felt Nat → Diff × AM
     if e.number == b then (d, c, some e)
     else mergeBefore rest b (d.merge e.diff) (mergeClassesInto c e.classes)
 
-inductive StateErr | notFound | invariantBroken | indexOutOfBounds
-  deriving DecidableEq, Repr
-
 /-- `PreConfirmedStateBeforeIndexAt(blockNumber, index, bcReader)` -/
-def stateBeforeIndexAt (r : Reader) (b index : Nat) (baseAt : Nat → Base) : Except StateErr PState :=
+def stateBeforeIndexAt (r : Reader) (b index : Nat) (baseAt : Nat → Option Base) : Except StateErr PState :=
   if !r.contains b then .error .notFound
   else
     match mergeBefore r.oldestFirst b Diff.empty [] with
@@ -476,9 +499,23 @@ def stateBeforeIndexAt (r : Reader) (b index : Nat) (baseAt : Nat → Base) : Ex
     | (d, c, some target) =>
       if index > target.txs.length then .error .indexOutOfBounds
       else
-        let c' := mergeClassesInto c target.classes
-        let d' := (target.txDiffs.take index).foldl Diff.merge d
-        .ok { diff := d', classes := c', head := baseAt (r.oldest - 1), blockNumber := b }
+        match baseAt (pred64 r.oldest) with
+        | none => .error .noBase
+        | some base =>
+          let c' := mergeClassesInto c target.classes
+          let d' := (target.txDiffs.take index).foldl Diff.merge d
+          .ok { diff := d', classes := c', head := base, blockNumber := b }
+
+/-- `NewChain(entries...)` (oldest first): the view `Synchronizer.PreConfirmedChain` builds around
+the empty fallback block and `Sequencer.PreConfirmedChain` around the block being built. `none` =
+error (non-contiguous numbers; nil entries are not modelled). -/
+def newChain : List PreConf → Option Reader
+  | [] => some Reader.empty
+  | e :: rest =>
+    let rec go (prev : PreConf) (acc : List PreConf) : List PreConf → Option (List PreConf)
+      | [] => some acc
+      | x :: xs => if x.number != succ64 prev.number then none else go x (x :: acc) xs
+    (go e [e] rest).map fun nodes => { nodes := nodes, length := (e :: rest).length }
 
 /-! ## The specification side: a canonical state and what applying a block's diff means -/
 
